@@ -68,7 +68,8 @@ func NewFixtureOpts(withGrants bool) *Fixture {
 	}
 	for id := 0; id < 3 && withGrants; id++ {
 		grantee := sdk.AccAddress(world.ContractAddr(byte(0x10 + id)).Bytes())
-		for _, t := range []stakingtypes.AuthorizationType{stakingtypes.AuthorizationType_AUTHORIZATION_TYPE_DELEGATE, stakingtypes.AuthorizationType_AUTHORIZATION_TYPE_UNDELEGATE} {
+		for _, t := range []stakingtypes.AuthorizationType{stakingtypes.AuthorizationType_AUTHORIZATION_TYPE_DELEGATE, stakingtypes.AuthorizationType_AUTHORIZATION_TYPE_UNDELEGATE,
+			stakingtypes.AuthorizationType_AUTHORIZATION_TYPE_REDELEGATE, stakingtypes.AuthorizationType_AUTHORIZATION_TYPE_CANCEL_UNBONDING_DELEGATION} {
 			a, err := stakingtypes.NewStakeAuthorization([]sdk.ValAddress{w.ValAddr[0], w.ValAddr[1]}, nil, t, nil)
 			if err != nil {
 				panic(err)
